@@ -427,19 +427,27 @@ func predEdges(fn *ssa.Function, want bool, match func(cond ssa.Value) (bool, bo
 			continue
 		}
 		cond, pol := StripNot(ifi.Cond)
+		idx := 0
 		call, ok := cond.(*ssa.Call)
 		if !ok {
-			continue
+			ex, isEx := cond.(*ssa.Extract)
+			if !isEx {
+				continue
+			}
+			if call, ok = ex.Tuple.(*ssa.Call); !ok {
+				continue
+			}
+			idx = ex.Index
 		}
 		g := StaticFn(call)
-		if g == nil || g.Blocks == nil || g.Pkg == nil || fn.Pkg == nil || g.Pkg != fn.Pkg || g.Signature.Results().Len() != 1 {
+		if g == nil || g.Blocks == nil || g.Pkg == nil || fn.Pkg == nil || g.Pkg != fn.Pkg || g.Signature.Results().Len() <= idx {
 			continue
 		}
-		if bt, ok := g.Signature.Results().At(0).Type().Underlying().(*types.Basic); !ok || bt.Kind() != types.Bool {
+		if bt, ok := g.Signature.Results().At(idx).Type().Underlying().(*types.Basic); !ok || bt.Kind() != types.Bool {
 			continue
 		}
 		for _, resWant := range []bool{true, false} {
-			if helperImplies(g, resWant, want, match, depth+1) {
+			if helperImplies(g, idx, resWant, want, match, depth+1) {
 				succ := 1
 				if resWant == pol {
 					succ = 0
@@ -451,7 +459,7 @@ func predEdges(fn *ssa.Function, want bool, match func(cond ssa.Value) (bool, bo
 	return es
 }
 
-func helperImplies(g *ssa.Function, resWant, want bool, match func(cond ssa.Value) (bool, bool), depth int) bool {
+func helperImplies(g *ssa.Function, idx int, resWant, want bool, match func(cond ssa.Value) (bool, bool), depth int) bool {
 	inner := predEdges(g, want, match, depth)
 	can := false
 	for _, b := range g.Blocks {
@@ -459,10 +467,10 @@ func helperImplies(g *ssa.Function, resWant, want bool, match func(cond ssa.Valu
 			continue
 		}
 		ret, ok := b.Instrs[len(b.Instrs)-1].(*ssa.Return)
-		if !ok || len(ret.Results) != 1 {
+		if !ok || len(ret.Results) <= idx {
 			continue
 		}
-		v := ret.Results[0]
+		v := ResolveCellLoad(ret.Results[idx], ret)
 		if k, isC := v.(*ssa.Const); isC && k.Value != nil {
 			if (k.Value.String() == "true") != resWant {
 				continue
